@@ -100,11 +100,12 @@ def check(it, ns, out):
     if len(calls) != 1 or calls[0][1].f["name"] != name:
         return
     api, call = calls[0]
-    args = call.f["args"].items
-    ctx.oblige(f"main/{name}/argument-count", z3.BoolVal(len(args) == len(params)
-                                                         and not call.f["kwargs"].entries),
-               detail=f"{len(args)} positional", props=P)
-    if len(args) != len(params):
+    # bind positional and keyword arguments to the parameters of the real API method (defaults
+    # included), so that the comparison below is by parameter, however the call is spelled
+    args, why = _bind(it, name, call.f["args"].items, call.f["kwargs"].entries)
+    ctx.oblige(f"main/{name}/argument-count", z3.BoolVal(args is not None and len(args) == len(params)),
+               detail=why or f"{len(args)} parameters bound", props=P)
+    if args is None or len(args) != len(params):
         return
     # default namespace of the store (what an omitted -formatid means)
     ytext = T.as_text(z3.Select(ctx.fs0, I.YAML_LOC))
@@ -147,6 +148,34 @@ def check(it, ns, out):
     else:
         ctx.fail(f"main/{name}/store-opened-with-its-recorded-configuration",
                  "properties are not a dictionary", props=P)
+
+
+def _bind(it, name, pos, kw):
+    import ast
+    node = it.eng.funcs.get("FileHashStore." + name)
+    if node is None:
+        return list(pos), None
+    pn = [a.arg for a in node.args.args][1:]
+    dfl = dict(zip(pn[len(pn) - len(node.args.defaults):], node.args.defaults))
+    kws = {}
+    for g, k, v in kw:
+        key = k.concrete() if isinstance(k, VStr) else None
+        if key is None or not z3.is_true(z3.simplify(g)):
+            return None, "keyword argument with a symbolic name"
+        kws[key] = v
+    if len(pos) > len(pn):
+        return None, f"{len(pos)} positional arguments for {len(pn)} parameters"
+    full = list(pos)
+    for q in pn[len(pos):]:
+        if q in kws:
+            full.append(kws.pop(q))
+        elif q in dfl and isinstance(dfl[q], ast.Constant):
+            full.append(it.eval(dfl[q], None))
+        else:
+            return None, f"parameter {q} not supplied"
+    if kws:
+        return None, f"unknown keyword arguments {sorted(kws)}"
+    return full, None
 
 
 def _as_str(v):
